@@ -15,8 +15,8 @@
 // Large mode: a header `L<n0>` (graphs with 20..80 vertices, hubs, long argument lists).  The
 // semantics of the tokens is the same; only what is printed differs, to keep the model side
 // affordable: after a token only the touched graphs (receiver, created graph) are dumped, as
-// n/m/degrees/IsEdge rows of a few sampled vertices (0, n/2, n-1 and the first three arguments
-// modulo n)/neighbour lists (of the sampled vertices after AddEdge/RemoveEdge, of all vertices
+// n/m/degrees/IsEdge rows of a few sampled vertices (the two endpoints after AddEdge/RemoveEdge, otherwise
+// 0, n/2, n-1 and the first three arguments modulo n)/neighbour lists (of the sampled vertices after AddEdge/RemoveEdge, of all vertices
 // after the other operations); at the end every graph is dumped with all rows and all lists.
 package main
 
@@ -147,13 +147,17 @@ func dump(g graph.Graph) string {
 
 // sample lists the vertices whose IsEdge rows (and, after edge edits, neighbour lists) are
 // printed in large mode.
-func sample(n int, args []int) []int {
+func sample(kind byte, n int, args []int) []int {
 	if n == 0 {
 		return nil
 	}
 	s := []int{0, n / 2, n - 1}
+	k := 3
+	if kind == 'e' || kind == 'x' {
+		s, k = nil, 2
+	}
 	for i, a := range args {
-		if i >= 3 {
+		if i >= k {
 			break
 		}
 		s = append(s, a%n)
@@ -197,7 +201,7 @@ func touchedDump(st []graph.EditableGraph, t tok, touched []int) string {
 	s := make([]string, len(touched))
 	for k, i := range touched {
 		g := st[i]
-		smp := sample(g.N(), t.args)
+		smp := sample(t.kind, g.N(), t.args)
 		nbs := smp
 		if t.kind != 'e' && t.kind != 'x' {
 			nbs = allVertices(g.N())
@@ -562,7 +566,7 @@ func genLarge(r *hx.Rng, n0, k, d int, viaAddVertex bool, tail int) []tok {
 	if viaAddVertex {
 		h = n0
 	}
-	for i := 0; i < n0; i++ {
+	for i := 0; i < min(n0, 24); i++ {
 		a, b := r.Intn(n0), r.Intn(n0)
 		if a == h || b == h {
 			continue
@@ -696,7 +700,10 @@ func genLargeCases(g *hx.Gen) {
 		if n0 > 50 {
 			tail = min(tail, 5)
 		}
-		g.Emit(caseLineL(n0, genLarge(r, n0, k, d, count%2 == 0, tail)))
+		// a hub of high degree is built edge by edge (one observation per edge) in the thorough
+		// tier only
+		via := count%2 == 0 || (d > 40 && !g.Thorough())
+		g.Emit(caseLineL(n0, genLarge(r, n0, k, d, via, tail)))
 		count++
 	}
 	ratios := []int{8, 4, 16}
